@@ -14,7 +14,7 @@ import (
 const c07ProbeEnv = "ORBVERIF_C07_PROBE"
 
 func init() {
-	// probe mode (see c07Returns): make the bare clip call described by the environment variable and exit
+	// probe mode (see c07Returns): make the bare clip calls of the case described by the environment variable and exit
 	if probe := os.Getenv(c07ProbeEnv); probe != "" {
 		f := strings.Fields(probe)
 		c07Call(f[0], f[1:])
@@ -23,20 +23,115 @@ func init() {
 	register(&Prop{ID: "C07", Run: runC07, Gen: genC07})
 }
 
-// c07Call makes the clip call of a `line` / `mls` case and nothing else.
-func c07Call(op string, in []string) {
+// ---- option lists --------------------------------------------------------------------------------
+//
+// clip.LineString / clip.MultiLineString take `opts ...clip.Option`; the only option is clip.OpenBound(yes).
+// The code runs the options in list order over a fresh options value, so the LAST one wins and no option
+// means the closed bound (model: lean/Orb/ClipOptions.lean, theorems options_* in OrbProofs/C07.lean).
+// The property speaks of "the option" — the request, not its spelling — so every real call of this file is
+// made with one of the many spellings of the request:
+//
+//   * a case carries the request (0 closed, 1 open) as its first token; the spelling is chosen per case from
+//     c07Spell by a hash of the case's tokens (deterministic: a replayed line makes the same calls);
+//   * or the case carries the option list itself as trailing tokens `<k> <b_1> … <b_k>` (k = 0: the
+//     option-less call), and that list is passed; the driver computes the request with the model
+//     `applyOptions` (and answers `bad` if the first token says otherwise).
+//
+// CALL HISTORY MUST NOT MATTER: before the real call of EVERY case a decoy call is made on clones of the
+// same input with the OPPOSITE request (through both entry points), so a flag that survives a call
+// (a shared default options value, a cached result keyed without the option) shows on the next line.
+// The idempotence re-clip of a piece is made option-less (closed bound) — directly after a call that may
+// have asked for the open bound.
+
+// c07Spell[request]: every list of at most three options with that effective value (and the empty list).
+var c07Spell = [2][][]int{
+	{{}, {0}, {0, 0}, {1, 0}, {0, 0, 0}, {0, 1, 0}, {1, 0, 0}, {1, 1, 0}},
+	{{1}, {0, 1}, {1, 1}, {0, 0, 1}, {0, 1, 1}, {1, 0, 1}, {1, 1, 1}},
+}
+
+func c07Opts(bits []int) []clip.Option {
+	if len(bits) == 0 {
+		return nil // `clip.LineString(box, ls)`: no option at all
+	}
+	opts := make([]clip.Option, len(bits))
+	for i, b := range bits {
+		opts[i] = clip.OpenBound(b == 1)
+	}
+	return opts
+}
+
+func c07Hash(in []string) uint64 {
+	h := uint64(14695981039346656037)
+	for _, t := range in {
+		for i := 0; i < len(t); i++ {
+			h = (h ^ uint64(t[i])) * 1099511628211
+		}
+		h = (h ^ ' ') * 1099511628211
+	}
+	return h ^ h>>29
+}
+
+// c07Case is a parsed case: the option list of the real call, the (differently spelled) lists of the
+// member-wise / repeated calls, the decoy's list, the box and the line strings.
+type c07Case struct {
+	multi bool
+	opts  []int
+	alt   func(i int) []int // another spelling of the same request
+	decoy []int             // a spelling of the opposite request
+	box   orb.Bound
+	lines orb.MultiLineString
+}
+
+func c07Parse(op string, in []string) c07Case {
 	r := &tokReader{t: in}
-	open := r.int() == 1
-	box := rdBound(r)
+	h := c07Hash(in)
+	var cs c07Case
+	req := r.int() & 1
+	cs.opts = c07Spell[req][h%uint64(len(c07Spell[req]))]
+	cs.box = rdBound(r)
 	if op == "line" {
-		clip.LineString(box, orb.LineString(r.pts()), clip.OpenBound(open))
+		cs.lines = orb.MultiLineString{orb.LineString(r.pts())}
+	} else {
+		cs.multi = true
+		cs.lines = make(orb.MultiLineString, r.int())
+		for i := range cs.lines {
+			cs.lines[i] = orb.LineString(r.pts())
+		}
+	}
+	if len(r.rest()) > 0 { // an explicit option list
+		cs.opts = make([]int, r.int())
+		for i := range cs.opts {
+			cs.opts[i] = r.int() & 1
+		}
+		req = 0
+		if n := len(cs.opts); n > 0 {
+			req = cs.opts[n-1]
+		}
+	}
+	cs.alt = func(i int) []int {
+		return c07Spell[req][(h>>11+uint64(i))%uint64(len(c07Spell[req]))]
+	}
+	cs.decoy = c07Spell[1-req][(h>>23)%uint64(len(c07Spell[1-req]))]
+	return cs
+}
+
+// c07Decoy: the same input (clones), the opposite request, both entry points.  Results are dropped.
+func c07Decoy(cs c07Case) {
+	for _, ls := range cs.lines {
+		clip.LineString(cs.box, ls.Clone(), c07Opts(cs.decoy)...)
+	}
+	clip.MultiLineString(cs.box, cs.lines.Clone(), c07Opts(cs.decoy)...)
+}
+
+// c07Call makes the clip calls of a case (decoy, then the real call) and nothing else.
+func c07Call(op string, in []string) {
+	cs := c07Parse(op, in)
+	c07Decoy(cs)
+	if !cs.multi {
+		clip.LineString(cs.box, cs.lines[0], c07Opts(cs.opts)...)
 		return
 	}
-	mls := make(orb.MultiLineString, r.int())
-	for i := range mls {
-		mls[i] = orb.LineString(r.pts())
-	}
-	clip.MultiLineString(box, mls, clip.OpenBound(open))
+	clip.MultiLineString(cs.box, cs.lines, c07Opts(cs.opts)...)
 }
 
 func smls(m orb.MultiLineString) string {
@@ -50,52 +145,48 @@ func smls(m orb.MultiLineString) string {
 
 func runC07(op string, in []string) string {
 	return guard(func() string {
-		r := &tokReader{t: in}
 		switch op {
 		case "line":
-			open := r.int() == 1
-			box := rdBound(r)
-			ls := orb.LineString(r.pts())
+			cs := c07Parse(op, in)
+			ls := cs.lines[0]
 			before := spts(ls)
-			if !c07Returns([]orb.LineString{ls}, box, open, op, in) {
+			if !c07Returns(cs, op, in) {
 				return "hang"
 			}
-			out := clip.LineString(box, ls, clip.OpenBound(open))
+			c07Decoy(cs)
+			out := clip.LineString(cs.box, ls, c07Opts(cs.opts)...)
 			res := smls(out)
 			unmod := spts(ls) == before
 			// clipping a piece again returns it unchanged
 			idem := true
 			for _, piece := range out {
 				// (a piece's own end points lie on the boundary, so the comparison is made with the closed
-				// bound in both modes; all its vertices have region code 0, no intersection is computed)
-				again := clip.LineString(box, piece.Clone(), clip.OpenBound(false))
+				// bound in both modes — here by the OPTION-LESS call, right after a call that may have asked for
+				// the open bound; all its vertices have region code 0, no intersection is computed)
+				again := clip.LineString(cs.box, piece.Clone())
 				if len(again) != 1 || spts(again[0]) != spts(piece) {
 					idem = false
 				}
 			}
 			return res + " " + b2s(idem) + " " + b2s(unmod)
 		case "mls":
-			// the second entry point: clip.MultiLineString, with the option passed explicitly in both modes;
-			// alongside, clip.LineString of every member (on a clone) with the same option
-			open := r.int() == 1
-			box := rdBound(r)
-			n := r.int()
-			mls := make(orb.MultiLineString, n)
-			for i := range mls {
-				mls[i] = orb.LineString(r.pts())
-			}
+			// the second entry point: clip.MultiLineString; alongside, clip.LineString of every member (on a
+			// clone) with the same request spelled differently
+			cs := c07Parse(op, in)
+			mls := cs.lines
 			before := smls(mls)
-			if !c07Returns(mls, box, open, op, in) {
+			if !c07Returns(cs, op, in) {
 				return "hang"
 			}
-			out := clip.MultiLineString(box, mls, clip.OpenBound(open))
+			c07Decoy(cs)
+			out := clip.MultiLineString(cs.box, mls, c07Opts(cs.opts)...)
 			res := smls(out)
 			unmod := smls(mls) == before
 			var sb strings.Builder
-			sb.WriteString(fmt.Sprint(n))
-			for _, ls := range mls {
+			sb.WriteString(fmt.Sprint(len(mls)))
+			for i, ls := range mls {
 				sb.WriteString(" ")
-				sb.WriteString(smls(clip.LineString(box, ls.Clone(), clip.OpenBound(open))))
+				sb.WriteString(smls(clip.LineString(cs.box, ls.Clone(), c07Opts(cs.alt(i))...)))
 			}
 			return res + " " + b2s(unmod) + " " + sb.String()
 		}
@@ -103,19 +194,55 @@ func runC07(op string, in []string) string {
 	})
 }
 
-// c07Returns reports whether the real clip call of the case (op, in) returns: the watchdog for the loop of
+// The watchdog's limits.  A case is a hang when the CHILD HAS BURNT c07CPULimit of CPU time
+// (/proc/<pid>/stat, utime + stime) — a non-terminating loop spins — not when wall time has passed: the
+// former 10 s wall-clock limit reported `hang` for a child that, on a machine with load > 200, had not
+// been scheduled yet (the case replayed `ok`).  A child that neither exits nor computes is given
+// c07WallCap as a last resort.  Without /proc the limit is wall time only.
+const (
+	c07CPULimit = 10 * time.Second
+	c07WallCap  = 10 * time.Minute
+)
+
+// CPU time (user + system) consumed so far by process pid; ok = false when /proc is not available
+func c07ProcCPU(pid int) (time.Duration, bool) {
+	data, err := os.ReadFile(fmt.Sprintf("/proc/%d/stat", pid))
+	if err != nil {
+		return 0, false
+	}
+	str := string(data)
+	i := strings.LastIndexByte(str, ')')
+	if i < 0 {
+		return 0, false
+	}
+	f := strings.Fields(str[i+1:])
+	if len(f) < 13 {
+		return 0, false
+	}
+	var ut, st int64
+	if _, err := fmt.Sscan(f[11], &ut); err != nil {
+		return 0, false
+	}
+	if _, err := fmt.Sscan(f[12], &st); err != nil {
+		return 0, false
+	}
+	return time.Duration(ut+st) * (time.Second / 100), true // USER_HZ = 100
+}
+
+// c07Returns reports whether the real clip calls of the case (op, in) return: the watchdog for the loop of
 // clip.line.  Before the rounding guard was added (finding C07-corner-rounding-nontermination, fixed:
 // an end point is clipped at most twice, then snapped onto the box) the loop could alternate for ever
 // between two edges at a corner.  A looping goroutine cannot be stopped, so normally the caller just
-// makes the call itself — no timeout, no false alarm on a loaded machine.  Only when a replica of the
-// loop WITHOUT the guard, with the same float arithmetic (c07Cycles), does not leave the loop — exactly
-// the inputs on which the guard matters — the REAL call is first made in a child process (this
-// executable in probe mode) that is killed after 10 seconds: the outcome `hang` is what was actually
-// observed of the real code (the driver answers `propfail hang`), and nothing is left spinning.
-func c07Returns(lines []orb.LineString, box orb.Bound, open bool, op string, in []string) bool {
+// makes the calls itself — no timeout, no false alarm on a loaded machine.  Only when a replica of the
+// loop WITHOUT the guard, with the same float arithmetic (c07Cycles; in either mode, the decoy call uses
+// the other one), does not leave the loop — exactly the inputs on which the guard matters — the REAL
+// calls are first made in a child process (this executable in probe mode) that is killed once it has
+// used c07CPULimit of CPU time: the outcome `hang` is what was actually observed of the real code (the
+// driver answers `propfail hang`), and nothing is left spinning.
+func c07Returns(cs c07Case, op string, in []string) bool {
 	predicted := false
-	for _, ls := range lines {
-		if c07Cycles(box, ls, open) {
+	for _, ls := range cs.lines {
+		if c07Cycles(cs.box, ls, false) || c07Cycles(cs.box, ls, true) {
 			predicted = true
 		}
 	}
@@ -133,16 +260,31 @@ func c07Returns(lines []orb.LineString, box orb.Bound, open bool, op string, in 
 	}
 	done := make(chan error, 1)
 	go func() { done <- cmd.Wait() }()
-	select {
-	case err := <-done:
-		if err != nil {
-			panic(fmt.Sprint("probe: ", err)) // the real call crashed in the child: outcome `panic`
+	t0 := time.Now()
+	tick := time.NewTicker(100 * time.Millisecond)
+	defer tick.Stop()
+	_, haveCPU := c07ProcCPU(cmd.Process.Pid)
+	for {
+		select {
+		case err := <-done:
+			if err != nil {
+				panic(fmt.Sprint("probe: ", err)) // the real call crashed in the child: outcome `panic`
+			}
+			return true
+		case <-tick.C:
+			hung := time.Since(t0) > c07WallCap
+			if cpu, ok := c07ProcCPU(cmd.Process.Pid); ok && cpu >= c07CPULimit {
+				hung = true
+			}
+			if !haveCPU && time.Since(t0) > 10*c07CPULimit {
+				hung = true
+			}
+			if hung {
+				cmd.Process.Kill()
+				<-done
+				return false
+			}
 		}
-		return true
-	case <-time.After(10 * time.Second):
-		cmd.Process.Kill()
-		<-done
-		return false
 	}
 }
 
@@ -229,10 +371,7 @@ func (x c07Box) tok() string {
 //	kind 1: corners on the quarter grid in [-8, 8] (the placement arithmetic below is exact on it, so
 //	        vertices land exactly on edges, corners and on lines through corners);
 //	kind 2: general-position float corners, magnitude up to 1, 10, 100 or 1000, either sign.
-func c07RandBox(r interface {
-	Intn(int) int
-	Float64() float64
-}, kind int) c07Box {
+func c07RandBox(r clipRng, kind int) c07Box {
 	if kind == 1 {
 		x0, y0 := r.Intn(56)-32, r.Intn(56)-32
 		w, h := 1+r.Intn(16), 1+r.Intn(16)
@@ -249,20 +388,23 @@ func c07RandBox(r interface {
 	}
 }
 
-// c07Coord places one coordinate relative to [lo, hi]: below, exactly lo, inside, exactly hi, above
+// c07Coord places one coordinate relative to [lo, hi]: below, exactly lo, inside, exactly hi, above, or a
+// NEAR MISS of lo / hi (clipnear.go: one ulp, a few ulps, 1e-15 .. 1e-7 inside or outside the edge)
 // (insideOnly: never outside).  Quarter-grid boxes get quarter-grid offsets (exact coincidences with
 // edges, corners and corner diagonals); float boxes get random offsets (general position) but the
 // exact edge values lo / hi are copied, so vertices on edges and corners do occur.
-func c07Coord(r interface {
-	Intn(int) int
-	Float64() float64
-}, kind int, lo, hi float64, insideOnly bool) float64 {
-	cls := r.Intn(11)
+func c07Coord(r clipRng, kind int, lo, hi float64, insideOnly bool) float64 {
+	cls := r.Intn(14)
 	if insideOnly {
 		cls = 2 + r.Intn(7)
+		if r.Intn(5) == 0 {
+			cls = 11
+		}
 	}
 	w := hi - lo
 	switch {
+	case cls >= 11: // near miss of an edge, inside or outside
+		return clipNearCoord(r, lo, hi, insideOnly)
 	case cls < 2: // below
 		if kind == 1 {
 			return lo - float64(1+r.Intn(int(w*4)+4))/4
@@ -285,6 +427,116 @@ func c07Coord(r interface {
 	}
 }
 
+// c07NearBoxes: the boxes of the deterministic near-miss sweep (integer, quarter grid with negative corners,
+// the unit square, general position, large magnitude).
+var c07NearBoxes = []orb.Bound{
+	{Min: orb.Point{1, 2}, Max: orb.Point{3, 5}},
+	{Min: orb.Point{-1.75, 0.25}, Max: orb.Point{-0.5, 2}},
+	{Min: orb.Point{0, 0}, Max: orb.Point{1, 1}},
+	{Min: orb.Point{0.3137066217615, -7.7713900482}, Max: orb.Point{2.90210746105, -6.1000000000001}},
+	{Min: orb.Point{100.1, -1000.3}, Max: orb.Point{250.7, -999.1}},
+}
+
+// genC07Near: for every box above, axis, edge (lo / hi) and offset of clipNearOffsets (1, 2, 5 ulps, 1e-15 .. 1e-7,
+// inside and outside: up to 24 per edge): a vertex P with that coordinate — the other coordinate inside, exactly on an edge
+// of the other axis, or the same near miss of it (next to a corner) — in five line shapes (into P, out of
+// P, a run parallel to the edge at that distance, across the whole box ending in P, an excursion to P),
+// both requests.  About 14 000 cases, in every tier and run (sharded).
+func genC07Near(c *Ctx) {
+	idx := 0
+	for _, b := range c07NearBoxes {
+		bt := fmt.Sprintf("%s %s %s %s", fb(b.Min[0]), fb(b.Min[1]), fb(b.Max[0]), fb(b.Max[1]))
+		for axis := 0; axis < 2; axis++ {
+			o := 1 - axis
+			mid := orb.Point{b.Min[0] + (b.Max[0]-b.Min[0])*0.375, b.Min[1] + (b.Max[1]-b.Min[1])*0.625}
+			mid2 := orb.Point{b.Min[0] + (b.Max[0]-b.Min[0])*0.75, b.Min[1] + (b.Max[1]-b.Min[1])*0.25}
+			for edge := 0; edge < 2; edge++ {
+				e, far := b.Min[axis], b.Max[axis]+(b.Max[axis]-b.Min[axis])
+				eo := b.Min[o]
+				if edge == 1 {
+					e, far = b.Max[axis], b.Min[axis]-(b.Max[axis]-b.Min[axis])
+					eo = b.Max[o]
+				}
+				offs, offsO := clipNearOffsets(e), clipNearOffsets(eo)
+				for k, v := range offs {
+					idx++
+					if !c.Mine(idx) {
+						continue
+					}
+					for other := 0; other < 3; other++ {
+						var p, q, fr orb.Point
+						p[axis], q[axis], fr[axis] = v, v, far
+						switch other {
+						case 0:
+							p[o] = mid[o]
+						case 1:
+							p[o] = eo
+						default:
+							p[o] = offsO[k%len(offsO)]
+						}
+						q[o] = mid2[o]
+						fr[o] = mid[o]
+						for _, l := range [][]orb.Point{{mid, p}, {p, mid}, {p, q}, {fr, p}, {mid, p, mid2}} {
+							for req := 0; req < 2; req++ {
+								c.Case("line", fmt.Sprintf("%d %s %s", req, bt, spts(l)))
+							}
+						}
+					}
+				}
+			}
+		}
+	}
+}
+
+// genC07Options: every option list of length 0 .. 4 (31 lists) against lines on which the two requests
+// differ (a run along an edge, a vertex on the boundary, a corner touch) and lines on which they agree,
+// through both entry points.
+func genC07Options(c *Ctx) {
+	type wit struct {
+		box string
+		ls  [][]orb.Point
+	}
+	f := func(v ...float64) string {
+		t := make([]string, len(v))
+		for i, x := range v {
+			t[i] = fb(x)
+		}
+		return strings.Join(t, " ")
+	}
+	wits := []wit{
+		{f(0, 0, 2, 2), [][]orb.Point{{{1, 1}, {2, 1}, {2, 2}, {3, 3}}, {{-1, 1}, {3, 1}}}},
+		{f(1, 1, 3, 3), [][]orb.Point{{{2, 2}, {3, 2}, {2, 1.5}}, {{1, 0}, {1, 4}}, {{0, 0}, {4, 4}}}},
+		{f(-1.5, -0.25, 0.5, 2), [][]orb.Point{{{-1.5, -0.25}, {0.5, -0.25}, {0.5, 2}}, {{-1, 0}, {0, 1}}, {{-3, 3}, {1, -1}}}},
+		{f(0.1, 0.2, 0.7, 0.9), [][]orb.Point{{{0.1, 0.5}, {0.4, 0.9}, {0.7, 0.5}, {0.4, 0.2}, {0.1, 0.5}}, {{0, 0.2}, {1, 0.2}}}},
+	}
+	idx := 0
+	for n := 0; n <= 4; n++ {
+		for m := 0; m < 1<<n; m++ {
+			idx++
+			if !c.Mine(idx) {
+				continue
+			}
+			bits := make([]string, n)
+			req := 0 // the generator's own reading of the list (the driver checks it against the model)
+			for i := range bits {
+				bits[i] = fmt.Sprint(m >> i & 1)
+				req = m >> i & 1
+			}
+			ol := strings.TrimSpace(fmt.Sprintf("%d %s", n, strings.Join(bits, " ")))
+			for _, w := range wits {
+				var sb strings.Builder
+				sb.WriteString(fmt.Sprint(len(w.ls)))
+				for _, l := range w.ls {
+					c.Case("line", fmt.Sprintf("%d %s %s %s", req, w.box, spts(l), ol))
+					sb.WriteString(" ")
+					sb.WriteString(spts(l))
+				}
+				c.Case("mls", fmt.Sprintf("%d %s %s %s", req, w.box, sb.String(), ol))
+			}
+		}
+	}
+}
+
 func c07In(b orb.Bound, p orb.Point) bool {
 	return b.Min[0] <= p[0] && p[0] <= b.Max[0] && b.Min[1] <= p[1] && p[1] <= b.Max[1]
 }
@@ -294,6 +546,9 @@ func genC07(c *Ctx) {
 	bx := func(x0, y0, x1, y1 int) string {
 		return fmt.Sprintf("%s %s %s %s", fb(float64(x0)), fb(float64(y0)), fb(float64(x1)), fb(float64(y1)))
 	}
+	// fixed families (every tier, every run, sharded): all short option lists; the near-miss sweep
+	genC07Options(c)
+	genC07Near(c)
 	// exhaustive: all segments on the 7x7 grid against all sub-boxes of the inner 5x5 grid (coordinates 1..5),
 	// both options — in every tier, every run (100 boxes x 2401 segments x 2 options, sharded)
 	idx := 0
@@ -414,7 +669,28 @@ func genC07(c *Ctx) {
 				ps[i] = ps[i-1] // repeated vertex
 			}
 		}
+		// near misses for every family (the relative placement draws them per coordinate as well): one vertex
+		// in a while is moved next to an edge or a corner of the box
+		if len(ps) > 0 && r.Intn(6) == 0 {
+			for k := 1 + r.Intn(2); k > 0; k-- {
+				i := r.Intn(len(ps))
+				ps[i] = clipNudgePoint(r, b, ps[i], insideOnly)
+			}
+		}
 		return ps
+	}
+	// an option list for the ops that carry one: 0 .. 6 entries, any values (0: the option-less call)
+	randOpts := func() (req int, list string) {
+		n := r.Intn(7)
+		if r.Intn(4) == 0 {
+			n = 0
+		}
+		t := []string{fmt.Sprint(n)}
+		for i := 0; i < n; i++ {
+			req = r.Intn(2)
+			t = append(t, fmt.Sprint(req))
+		}
+		return req, strings.Join(t, " ")
 	}
 	for k := 0; k < c.Budget && !c.Exhausted(); k++ {
 		b := randBox()
@@ -424,7 +700,12 @@ func genC07(c *Ctx) {
 			place = 1 // integer box, vertices placed relative to it on the quarter grid
 		}
 		if r.Intn(5) != 0 {
-			c.Case("line", fmt.Sprintf("%d %s %s", o, b.tok(), spts(randLine(b.b, place, r.Intn(12) == 0))))
+			l := spts(randLine(b.b, place, r.Intn(12) == 0))
+			c.Case("line", fmt.Sprintf("%d %s %s", o, b.tok(), l))
+			if r.Intn(3) == 0 { // the same line with an explicit option list
+				req, list := randOpts()
+				c.Case("line", fmt.Sprintf("%d %s %s %s", req, b.tok(), l, list))
+			}
 			continue
 		}
 		// clip.MultiLineString: 0..4 members; every member is also judged on its own as a `line` case
@@ -441,6 +722,10 @@ func genC07(c *Ctx) {
 			sb.WriteString(members[i])
 		}
 		c.Case("mls", fmt.Sprintf("%d %s %s", o, b.tok(), sb.String()))
+		if r.Intn(2) == 0 {
+			req, list := randOpts()
+			c.Case("mls", fmt.Sprintf("%d %s %s %s", req, b.tok(), sb.String(), list))
+		}
 		for _, m := range members {
 			c.Case("line", fmt.Sprintf("%d %s %s", o, b.tok(), m))
 		}
